@@ -25,10 +25,11 @@
 (* Three copies of the replicated state are carried along:                 *)
 (*   live  the node that serves the API                                     *)
 (*   full  what a follower that applied every entry from the start has      *)
-(*   fold, lastE   the snapshot lineage: `fold` = newest Marshal()ed base   *)
-(*         with every entry but the newest (`lastE`) applied; a node that   *)
-(*         is restored from the snapshot and replays the tail ends in       *)
-(*         ApplyEntry(fold, lastE)                                          *)
+(*   base, fold, lastE   the snapshot lineage: `base` = the state the       *)
+(*         newest snapshot serialised (FSM.lastSnapshotState), `fold` =     *)
+(*         base with every later entry but the newest (`lastE`) applied; a  *)
+(*         node that is restored from the snapshot and replays the tail     *)
+(*         ends in ApplyEntry(fold, lastE)                                  *)
 (* F5 (known finding) is modelled in Marshal: WhitelistedOrigins are not    *)
 (* serialised (FixedF5 = FALSE).                                            *)
 (***************************************************************************)
@@ -45,8 +46,8 @@ CONSTANTS Users,        \* session aliases
           FixedF5,      \* TRUE: Marshal keeps WhitelistedOrigins
           RecordHist    \* TRUE: keep the history for behaviour export
 
-VARIABLES live, fsmExp, fold, lastE, full, home, last, hist, n, cnt
-vars == <<live, fsmExp, fold, lastE, full, home, last, hist, n, cnt>>
+VARIABLES live, fsmExp, base, fold, lastE, full, home, last, hist, n, cnt
+vars == <<live, fsmExp, base, fold, lastE, full, home, last, hist, n, cnt>>
 
 None == [none |-> TRUE]
 
@@ -160,8 +161,9 @@ Commit(e) ==
     /\ fold' = IF lastE = None THEN fold ELSE ApplyEntry(fold, lastE)
     /\ lastE' = e
     /\ fsmExp' = IF e.t = "config" THEN ApplyEntry(live, e).cfg.exp ELSE fsmExp
+    /\ UNCHANGED base
 
-NoCommit == UNCHANGED <<live, full, fold, lastE, fsmExp>>
+NoCommit == UNCHANGED <<live, full, base, fold, lastE, fsmExp>>
 
 ConfigEntry(rev, b) == [t |-> "config", rev |-> rev, body |-> b, valid |-> FsmValid(b),
                         proj |-> IF b = "R" THEN live.cfg ELSE Proj(b)]
@@ -218,7 +220,7 @@ Msg(u, cmd, arg, via) ==
     LET e == [t |-> "msg", s |-> u, cmd |-> cmd, arg |-> arg, addr |-> EffAddr(via, live.cfg)] IN
     /\ Commit(e)
     /\ home' = [home EXCEPT ![u] = via]
-    /\ UNCHANGED cnt
+    /\ cnt' = IF cmd = "gline" /\ MsgResult(live, e, ApplyEntry(live, e)) = "ok" THEN [cnt EXCEPT !.g = live.rev] ELSE cnt
     /\ Record([a |-> "Msg", s |-> u, cmd |-> cmd, arg |-> arg, via |-> via, addr |-> e.addr,
                res |-> MsgResult(live, e, ApplyEntry(live, e))])
 
@@ -240,6 +242,7 @@ Delete(u) == live.sess[u].st \in LiveSt /\ DeleteV(u)
 (* REPAIRED (F18): folding never touches the live FSM's expiration.         *)
 SnapshotV(mode, via) ==
     /\ fold' = IF mode = "allButLast" THEN Marshal(fold) ELSE fold
+    /\ base' = IF mode = "allButLast" THEN Marshal(fold) ELSE base
     /\ UNCHANGED <<live, full, lastE, fsmExp, home>>
     /\ cnt' = [cnt EXCEPT !.snap = @ + 1]
     /\ Record([a |-> "Snapshot", mode |-> mode, via |-> via, res |-> "ok"])
@@ -253,19 +256,20 @@ Snapshot(mode, via) == cnt.snap < MaxSnap /\ SnapshotV(mode, via)
 RestartV(observe) ==
     /\ live' = Restored
     /\ fsmExp' = Restored.cfg.exp
-    /\ UNCHANGED <<full, fold, lastE, home>>
+    /\ UNCHANGED <<full, base, fold, lastE, home>>
     /\ cnt' = [cnt EXCEPT !.restart = @ + 1]
     /\ Record([a |-> "Restart", observe |-> observe, res |-> "ok"])
 
 Restart(observe) == cnt.restart < MaxRestart /\ RestartV(observe)
 
-Cnt0 == [rej |-> 0, snap |-> 0, restart |-> 0, inject |-> 0, cfg |-> 0]
+Cnt0 == [rej |-> 0, snap |-> 0, restart |-> 0, inject |-> 0, cfg |-> 0, g |-> 0]   \* g: revision at the latest successful GLINE
 Prelude == [t |-> "config", rev |-> 1, body |-> "P", valid |-> TRUE, proj |-> Proj("P")]
 
 Init ==
     LET e == [t |-> "config", rev |-> 1, body |-> "P", valid |-> TRUE, proj |-> Proj("P")] IN
     /\ live = ApplyEntry(S0, e)
     /\ full = ApplyEntry(S0, e)
+    /\ base = S0
     /\ fold = S0
     /\ lastE = e
     /\ fsmExp = 30
@@ -331,6 +335,12 @@ TypeOK ==
 GlineIsConfig ==
     (last # None /\ last.a = "Msg" /\ last.cmd = "gline" /\ last.res = "ok")
         => \E ad \in live.cfg.banned : ad \in full.cfg.banned /\ ad \in Restored.cfg.banned
+
+(* Traps: negated state predicates; TLC's shortest counterexample is a     *)
+(* behaviour with a shape the random generator rarely reaches (Config_trap_ *)
+(* *.cfg; every body of those configurations is free of bans).              *)
+TrapGlineFolded == ~(last # None /\ last.a = "Restart" /\ last.observe /\ base.cfg.banned # {})
+TrapGlineRepost == ~(last # None /\ last.a = "Restart" /\ cnt.g > 0 /\ base.rev > cnt.g /\ base.cfg.banned # {})
 
 (* the body table, for the cross-check against the TOML texts of the check *)
 ExportTable ==
